@@ -586,6 +586,8 @@ class MultiStream(Stream):
         """
         phases = self.phases
         if energy_balance or isinstance(s1, MultiStream) or isinstance(s2, MultiStream):
+            for s in (s1, s2): # Outlets are overwritten; material in phases the stream lacks cannot be carried over
+                if s is not self: s.empty()
             s1.phases = phases
             s2.phases = phases
             for phase in phases: self[phase].split_to(s1[phase], s2[phase], split)
